@@ -83,6 +83,9 @@ func scenarios(tier string) []vlib.Scenario {
 	add(params{Streams: "none", Pending: "flood", Failure: "none", Order: "conn-only"})
 	add(params{Streams: "none", Pending: "flood", Failure: "none", Order: "conn-only", P: 1})
 	add(params{Streams: "up+down", Pending: "flood", Failure: "none", Order: "conn-first", P: 1})
+	// incoming calls and replies still queued when the connection is closed: ReceiveCall / ReceiveReplyCall fail all the same
+	add(params{Streams: "none", Pending: "queuedcalls", Failure: "none", Order: "conn-only"})
+	add(params{Streams: "none", Pending: "queuedcalls", Failure: "none", Order: "conn-only", P: 1})
 	// the resume is refused and the close request the library sends for the refused stream is never answered;
 	// the application closes the streams meanwhile
 	for _, st := range []string{"up", "down", "up+down"} {
@@ -119,7 +122,7 @@ func config(sc vlib.Scenario, tier string) vsched.Config {
 			}
 			return false
 		}
-		for _, s := range []string{".Close", ".close", "closeWithError", "iscp.(*Conn).run", "iscp.(*Conn).reconnect", "ConnectWithConfig.func", "eventDispatcher", "OpenUpstream.func", "OpenDownstream.func", "(*Upstream).run", "(*Downstream).run", "flushAckLoop", "iscp.(*connStatus)", "(*Downstream).ReadDataPoints", "(*Downstream).ReadMetadata", "(*Upstream).resume", "(*Downstream).resume"} {
+		for _, s := range []string{".Close", ".close", "closeWithError", "iscp.(*Conn).run", "iscp.(*Conn).reconnect", "ConnectWithConfig.func", "eventDispatcher", "OpenUpstream.func", "OpenDownstream.func", "(*Upstream).run", "(*Downstream).run", "flushAckLoop", "iscp.(*connStatus)", "(*Downstream).ReadDataPoints", "(*Downstream).ReadMetadata", "(*Upstream).resume", "(*Downstream).resume", "(*Conn).ReceiveCall", "(*Conn).ReceiveReplyCall"} {
 			if strings.Contains(site, s) {
 				return true
 			}
@@ -324,6 +327,12 @@ func (w *world) main() {
 		vsched.Go("h:pending", func() { _, w.pendErr = w.Conn.ReceiveCall(pctx); w.pendDone = true })
 	case "write":
 		w.Ups[0].Write(sctx, kit.IDA, "unflushed")
+	case "queuedcalls":
+		c := w.B.Live()
+		for i := 0; i < 2; i++ {
+			w.B.Send(c, &message.DownstreamCall{CallID: fmt.Sprintf("q-%d", i), SourceNodeID: "peer", Name: "n", Type: "t"})
+			w.B.Send(c, &message.DownstreamCall{CallID: fmt.Sprintf("qr-%d", i), RequestCallID: fmt.Sprintf("nobody-%d", i), SourceNodeID: "peer", Name: "n", Type: "t"})
+		}
 	case "queued":
 		c := w.B.Live()
 		for i := 0; i < 2; i++ {
